@@ -845,7 +845,7 @@ func PyPIUniverse() *rapid.Generator[Universe] {
 			inheritReqs(t, &p)
 			u.Pkgs = append(u.Pkgs, p)
 		}
-		if len(u.Pkgs) >= 5 && rapid.IntRange(0, 7).Draw(t, "scenario") == 0 {
+		if len(u.Pkgs) >= 5 && rapid.IntRange(0, 7).Draw(t, "scenario") < 2 {
 			injectPyPIScenario(t, &u)
 		}
 		return u
